@@ -337,10 +337,12 @@ func buildC18(model, parts, shape, appMode string, variant int) *c18Case {
 				id, act(permit, "ALLOW", "DROP"), seq, seq%250, gw)
 		}
 		rule := func(id string, seq int, permit bool) string { return ruleAt(id, seq, permit, "v1") }
+		polPart := "v4"
 		pol := func(rules []string) string {
 			more := ""
 			if twoPol {
-				for k, gw := range []string{"v2", "v3"} {
+				// v2 exists in every part, the last gateway only in this one.
+				for k, gw := range []string{"v2", "only" + polPart} {
 					id := fmt.Sprintf("p%s-%d", gw, uid())
 					more += `,{"id":"Netspoc-` + gw + `","rules":[` + ruleAt(id, 700+k, true, gw) + `]}`
 					add(`"`+id+`"`, "part", false, true, "Netspoc-"+gw, 0)
@@ -365,6 +367,7 @@ func buildC18(model, parts, shape, appMode string, variant int) *c18Case {
 				l = append(l, rule(id, 300+10*i, true))
 				add(`"`+id+`"`, "v6", false, true, "Netspoc-v1", i)
 			}
+			polPart = "v6"
 			c.Files["ipv6/router"] = pol(l)
 		}
 		if hasRaw {
@@ -374,6 +377,7 @@ func buildC18(model, parts, shape, appMode string, variant int) *c18Case {
 				l = append(l, rule(id, 5+i, p))
 				add(`"`+id+`"`, "raw", false, p, "Netspoc-v1", i)
 			}
+			polPart = "raw"
 			c.Files["router.raw"] = pol(l)
 		}
 	}
@@ -512,7 +516,29 @@ func judgeC18(c *c18Case, r run.Result) (clause, what string) {
 		pos[i] = strings.Index(out, ml.ID)
 	}
 	if c.Model == "NSX" {
-		// Order is defined by sequence numbers on NSX.
+		// Order is defined by sequence numbers on NSX; but every rule
+		// must be created in the gateway policy of its own part entry.
+		ol := strings.Split(out, "\n")
+		for _, ml := range c.Lines {
+			if !strings.HasPrefix(ml.List, "Netspoc-") {
+				continue
+			}
+			for k := range ol {
+				if !strings.Contains(ol[k], ml.ID) {
+					continue
+				}
+				for j := k; j >= 0; j-- {
+					if i := strings.Index(ol[j], "gateway-policies/"); i >= 0 {
+						rest := ol[j][i+len("gateway-policies/"):]
+						if rest != ml.List && !strings.HasPrefix(rest, ml.List+"/") && !strings.HasPrefix(rest, ml.List+" ") && !strings.HasPrefix(rest, ml.List+"?") {
+							return "wrong-container", fmt.Sprintf("%s rule %s of policy %s is created by request %q", ml.Part, ml.ID, ml.List, firstLines(ol[j], 1))
+						}
+						break
+					}
+				}
+				break
+			}
+		}
 		return "", ""
 	}
 	// Order inside each part.
